@@ -519,6 +519,7 @@ def check_export(case, ctx):
             for pos, i in enumerate(members):
                 position[i] = pos
         container = wd / "ratings.h5"
+        manager = None
         model = {}      # (file content id, enum) -> {"features": {name: value}, "rating": r}
         saved = []      # keys in save order (first save)
         curves = {}     # key -> fitted Indentation
@@ -557,6 +558,14 @@ def check_export(case, ctx):
                     idnt = curves[key]
             model[key]["rating"] = it["rating"]
             save_hdf5(container, idnt, user_rate=it["rating"], user_name="verif", user_comment=f"item {i}")
+            if manager is None and i % 2 == 0:
+                # a manager object that is kept while the container grows (it has read the ratings once)
+                manager = RateManager(container)
+                try:
+                    manager.ratings, manager.datasets
+                except BaseException as exc:  # noqa
+                    if isinstance(exc, (KeyboardInterrupt, SystemExit, MemoryError)):
+                        raise
         ncurves = len(model)
         classes = ["export", "export:%d_curves" % ncurves]
         if any(it["src"] == "again" for it in items):
@@ -580,8 +589,11 @@ def check_export(case, ctx):
             ctx.event("export:container_order_differs_from_save_order")
         desc = {"part": "export"}
         out = wd / "training_set"
+        # exported either by a new manager or by the one kept since an earlier state of the container
+        kept = manager is not None and case.get("layout_reversed") is not None and len(items) % 2 == 1
+        desc = {"part": "export", "manager": "kept" if kept else "new"}
         with ctx.no_raise("export-raises", desc):
-            RateManager(container).export_training_set(out)
+            (manager if kept else RateManager(container)).export_training_set(out)
         allf, _, _ = feature_names()
         want_files = sorted([f"train_{n}.txt" for n in allf] + ["train_response.txt"])
         got_files = sorted(p.name for p in out.glob("*")) if out.exists() else []
